@@ -10,10 +10,11 @@ TRUSTED_BASE = [
     "numpy.linalg.svd is a parameter of the model: the harness performs the same call on the forward-backward matrix and hands "
     "S and V to the model (the pseudo-spectra are invariant under the phase freedom of the singular vectors when the noise "
     "singular values are distinct: correspondence cases add noise; noiseless cases are evaluated by the oracle)",
-    "AIC/MDL argmin (logs and fractional powers of singular values) is a parameter; numpy.fft is the DFT parameter. The values of "
-    "spectrum.criteria.aic_eigen / mdl_eigen are not part of C17: the oracle evaluates the library's own two functions (on data "
-    "selected, with a generation-time copy of the two formulas, so that their argmins differ) and checks which of the two each "
-    "criteria name uses",
+    "numpy.fft is the DFT parameter.  spectrum.criteria.aic_eigen / mdl_eigen and the rule NSIG = argmin + 1 are modelled "
+    "(Model/EigenCrit.lean, float mode: logarithms; kind 'eigcrit' compares the criterion values at 1e-9 and the dimension "
+    "exactly); in the pseudo-spectrum kinds the dimension is still handed to the model as a number.  The oracle additionally "
+    "evaluates the library's own two functions (on data selected, with a generation-time copy of the two formulas, so that "
+    "their argmins differ) and checks which of the two each criteria name uses",
     "float mode, rtol 1e-7",
     "the oracle's reference pseudo-spectrum (ref_psd: steering-vector sums written from the definition, no FFT / reordering) uses "
     "numpy.linalg.svd of the forward-backward matrix built from its definition; element-wise tolerance 1e-8 .. 1e-7 on noisy data",
@@ -36,7 +37,9 @@ RULE = ("noiseless sums of K distinct on-grid complex exponentials (K 1..15, inc
         "over-weighted), NFFT even/odd and the default 4096, music and ev, functions and classes (.psd, .frequencies(), "
         ".eigenvalues); noisy data with random frequencies (float arrays, python lists, integer arrays; NFFT from P upwards; "
         "scale_by_freq; sampling) for the model correspondence and the class fold; argument-validation cases; low-noise records "
-        "on which the AIC, MDL dimensions and P-1 differ; thresholds 1, 1.5, 3, 10, 1e9")
+        "on which the AIC, MDL dimensions and P-1 differ; thresholds 1, 1.5, 3, 10, 1e9; eigcrit: sorted positive singular-value "
+        "lists (n 2..12 and 40..100, k signal values 0.5..4 decades above a noise floor with 30 % spread, amplitudes 1, 2^-30, 2^25) "
+        "through aic_eigen / mdl_eigen / _get_signal_space against the model, and re-scaled by t, 2^-20, 2^20 (same dimension)")
 
 
 def _sp():
@@ -516,7 +519,39 @@ def model_thr(p):
     return ("Q", proto.request("nsigthr", "Q", [], [np.asarray(p["S"], dtype=float), [p["thr"]]]))
 
 
+def impl_crit(p):
+    """criterion values and the dimension `_get_signal_space` derives from them (neither NSIG nor a threshold given)"""
+    from spectrum.criteria import aic_eigen, mdl_eigen
+    from spectrum.eigenfre import _get_signal_space
+    S = np.asarray(p["S"], dtype=float)
+    vals = (mdl_eigen if p["cr"] == "mdl" else aic_eigen)(S, 2 * p["NP"])
+    return [np.asarray(vals, dtype=float), np.array([float(_get_signal_space(S, p["NP"], criteria=p["cr"]))])]
+
+
+def model_crit(p):
+    return ("F", proto.request("eigcrit", "F", [p["cr"], p["NP"]], [np.asarray(p["S"], dtype=float)]))
+
+
+def oracle_crit(p):
+    """C03/C17: the order decision must not depend on the amplitude (theorem signal_space_crit_scale): scaling the singular
+    values by t > 0 moves every criterion value by the same constant, so NSIG is unchanged"""
+    from spectrum.eigenfre import _get_signal_space
+    S = np.asarray(p["S"], dtype=float)
+    out = []
+    n0 = _get_signal_space(S, p["NP"], criteria=p["cr"])
+    if not (1 <= n0 <= len(S) - 1):
+        out.append("NSIG chosen by %s is %r, outside 1..%d" % (p["cr"], n0, len(S) - 1))
+    for t in (p.get("t", 3.0), 2.0 ** -20, 2.0 ** 20):
+        n1 = _get_signal_space(S * t, p["NP"], criteria=p["cr"])
+        if n1 != n0 and not p.get("tie"):
+            out.append("NSIG chosen by %s changes from %d to %d when the singular values are scaled by %g (n=%d, NP=%d)"
+                       % (p["cr"], n0, n1, t, len(S), p["NP"]))
+    return out
+
+
 def _key(p):
+    if "cr" in p:
+        return "crit|%s|%d|%s" % (p["cr"], p["NP"], hash(np.asarray(p["S"]).tobytes()) & 0xFFFFFF)
     if "S" in p:
         return "thr|%s|%s" % (p["thr"], hash(np.asarray(p["S"]).tobytes()) & 0xFFFFFF)
     if "crit" in p:
@@ -573,8 +608,35 @@ KINDS = {
     "valid": {"impl": impl_valid, "model": model_valid, "strict_errors": True, "rtol": 0, "atol": 0, "key": _key,
               "tags": lambda p: ["valid:" + ("nsig" if p["nsig"] is not None else "-") + ("+thr" if p["thr"] is not None else "")]},
     "thr": {"impl": impl_thr, "model": model_thr, "rtol": 0, "atol": 0, "key": _key, "tags": lambda p: ["thr"]},
+    # aic_eigen / mdl_eigen and NSIG = argmin + 1 against Model/EigenCrit.lean (float mode: logarithms); the values are compared
+    # at 1e-9 of the largest one, the dimension exactly (the generated spectra have a clear minimum: see `_crit_cases`)
+    "eigcrit": {"impl": impl_crit, "model": model_crit, "oracle": oracle_crit, "rtol": 1e-9, "atol": 0, "key": _key,
+                "tags": lambda p: ["eigcrit:" + p["cr"], "eigcrit:n=%d" % min(len(p["S"]), 16)]},
 }
-NO_VARY = {"valid", "thr"}
+NO_VARY = {"valid", "thr", "eigcrit"}
+
+
+def _crit_cases(nrng, count):
+    """sorted positive singular values: k 'signal' values well above a noise floor with a small spread, so that the criterion
+    has a clear minimum (first-minimum ties between the float implementation and the float model are avoided by construction:
+    a case is kept only if the two smallest criterion values differ by more than 1e-6 relative)"""
+    from spectrum.criteria import aic_eigen, mdl_eigen
+    made = 0
+    i = 0
+    while made < count and i < 20 * count:
+        i += 1
+        n = int(nrng.integers(2, 13)) if i % 9 else int(nrng.integers(40, 101))
+        k = int(nrng.integers(0, n))
+        floor = 10.0 ** float(nrng.uniform(-3, 1))
+        S = np.concatenate([floor * 10.0 ** nrng.uniform(0.5, 4, k), floor * (1 + 0.3 * nrng.random(n - k))])
+        S = np.sort(S)[::-1] * [1.0, 2.0 ** -30, 2.0 ** 25][i % 3]
+        NP = int(nrng.integers(n, 101))
+        cr = "mdl" if i % 2 else "aic"
+        v = np.sort(np.asarray((mdl_eigen if cr == "mdl" else aic_eigen)(S, 2 * NP), dtype=float))
+        if v.size >= 2 and not (v[1] - v[0] > 1e-6 * max(1.0, abs(v[0]))):
+            continue
+        made += 1
+        yield ("eigcrit", {"S": S, "NP": NP, "cr": cr, "t": float(10.0 ** nrng.uniform(-3, 3))})
 
 
 def _noisy(nrng, N, cplx, sigma=0.3, freqs=None):
@@ -648,6 +710,8 @@ def gen(rng, nrng, tier):
         if i % 3 == 0:
             S[-1] = S[-2]                      # tied smallest singular values (3 and the 8 thresholds are coprime)
         yield ("thr", {"S": S, "thr": [1.0, 1.5, 2.0, 3.0, 100.0, 1.25, 10.0, 1e9][i % 8]})
+    for c in _crit_cases(nrng, 40 if tier == "quick" else 600):
+        yield c
     n = 50 if tier == "quick" else 700
     for i in range(n):
         cplx = bool(i % 2)
